@@ -128,6 +128,28 @@ def corr(ctx, binary, n):
             continue
         for i in r["mism"]:
             bad.append(cases[i])
+    # A certificate that fails inside a crowded shard on an overloaded machine is not a verdict yet: every
+    # mismatching case is evaluated once more, alone (same path as --replay); a deterministic disagreement
+    # fails again and stays in `bad`, whatever goes wrong in the re-evaluation keeps the case in `bad` too.
+    if 0 < len(bad) <= 12:
+        still = []
+        for k, c in enumerate(bad):
+            keep = True
+            try:
+                d = os.path.join(ctx.dir, "recheck_%d" % k)
+                os.makedirs(d, exist_ok=True)
+                rp = os.path.join(d, "case.json")
+                json.dump({"case": c}, open(rp, "w"))
+                vlib.sh([binary, "--replay", rp, "--out", d], env=vlib.go_env())
+                rr = eval_cert_shards(sorted(glob.glob(os.path.join(d, "replay_*.v"))), jobs=1)
+                if rr and all(x["ok"] for x in rr):
+                    keep = False
+                    ctx.log("mismatch of %s %s not reproduced when its certificate is evaluated alone: dropped" % (c.get("fam"), c.get("fn")))
+            except Exception as e:
+                ctx.log("re-evaluation of a mismatching case failed (%s): case kept" % e)
+            if keep:
+                still.append(c)
+        bad = still
     incons = (meta.get("extra") or {}).get("inconsistent") or []
     ctx.log("correspondence: %d certified evaluations in %d shards (max %.0fs), %d mismatching, %d type/register-dependent" % (
         len(cases), len(res), max([r["secs"] for r in res] or [0]), len(bad), len(incons)))
